@@ -75,8 +75,11 @@ where
         // Append the encoded frame_len + message bytes to the buffer instead of replacing it, we
         // might already have previously encoded items in it.
 
-        // Encode frame_len prefix (first four bytes) in big-endian order.
-        dst.put_u32(u32::try_from(frame_len).expect("already checked"));
+        // Encode frame_len prefix (first four bytes) in big-endian order. A frame which does not
+        // fit into the prefix is too large, independent of the configured maximum.
+        let prefix = u32::try_from(frame_len)
+            .map_err(|_| CodecError::TooLargeMessage(frame_len, u32::MAX as usize))?;
+        dst.put_u32(prefix);
 
         // Increase buffer size for message when necessary.
         dst.reserve(4 + frame_len);
